@@ -75,18 +75,49 @@ theorem goodLink_isSome (adj : List Link) (a b : Nat) : (goodLink adj a b).isSom
     rw [List.mem_filter]
     exact ⟨hl, by simp [h1, h2]⟩
 
+theorem mem_dedupP (x : Nat × Nat) : ∀ (l seen : List (Nat × Nat)), x ∈ dedupP seen l ↔ x ∈ l ∧ x ∉ seen
+  | [], seen => by simp [dedupP]
+  | y :: ys, seen => by
+    unfold dedupP
+    by_cases hy : y ∈ seen
+    · simp only [hy, if_true, mem_dedupP x ys seen, List.mem_cons]
+      constructor
+      · rintro ⟨a, b⟩; exact ⟨.inr a, b⟩
+      · rintro ⟨a | a, b⟩
+        · exact absurd (a ▸ hy) b
+        · exact ⟨a, b⟩
+    · simp only [hy, if_false, List.mem_cons, mem_dedupP x ys (y :: seen)]
+      constructor
+      · rintro (a | ⟨a, b⟩)
+        · exact ⟨.inl a, a ▸ hy⟩
+        · exact ⟨.inr a, fun c => b (.inr c)⟩
+      · rintro ⟨a | a, b⟩
+        · exact .inl a
+        · by_cases hxy : x = y
+          · exact .inl hxy
+          · exact .inr ⟨a, fun c => by rcases c with c | c; exact hxy c; exact b c⟩
+
+theorem mem_keysOf (adj : List Link) (k : Nat × Nat) : k ∈ keysOf adj ↔ ∃ l ∈ adj, (l.dpid1, l.dpid2) = k := by
+  unfold keysOf
+  rw [mem_dedupP, List.mem_map]
+  simp
+
 theorem mem_nbrs (adj : List Link) (a b : Nat) : b ∈ nbrs adj a ↔ Bidir adj a b := by
   unfold nbrs
-  rw [List.mem_filter, goodLink_isSome]
+  rw [List.mem_map]
   constructor
-  · exact fun h => h.2
+  · rintro ⟨k, hk, rfl⟩
+    rw [List.mem_filter] at hk
+    simp only [Bool.and_eq_true, decide_eq_true_eq] at hk
+    obtain ⟨_, h1, h2⟩ := hk
+    rw [h1] at h2
+    exact (goodLink_isSome adj a k.2).mp h2
   · intro h
-    refine ⟨?_, h⟩
+    refine ⟨(a, b), ?_, rfl⟩
+    rw [List.mem_filter]
+    refine ⟨?_, by simpa using (goodLink_isSome adj a b).mpr h⟩
     obtain ⟨l, hl, h1, h2, _⟩ := h
-    rw [mem_dedup]
-    refine ⟨?_, by simp⟩
-    rw [List.mem_map]
-    exact ⟨l, by rw [List.mem_filter]; exact ⟨hl, by simp [h1]⟩, h2⟩
+    exact (mem_keysOf adj (a, b)).mpr ⟨l, hl, by rw [h1, h2]⟩
 
 theorem nbrs_sym (adj : List Link) (a b : Nat) (h : b ∈ nbrs adj a) : a ∈ nbrs adj b :=
   (mem_nbrs adj b a).mpr ((mem_nbrs adj a b).mp h).symm
@@ -150,24 +181,46 @@ theorem calcEdges_correct (adj : List Link) (hns : ∀ l ∈ adj, l.dpid1 ≠ l.
       | symm _ ih => exact .symm ih
       | trans _ _ i1 i2 => exact .trans i1 i2
 
-theorem before_asymm (order : List Nat) (a b : Nat) (h : before order a b = true) : before order b a = false := by
-  unfold before at *
-  simp only [decide_eq_true_eq, decide_eq_false_iff_not] at *
-  omega
+theorem before_asymm : ∀ (order : List Nat) (a b : Nat), before order a b = true → before order b a = false
+  | [], _, _, h => by simp [before] at h
+  | x :: xs, a, b, h => by
+    unfold before at h ⊢
+    by_cases hxa : x = a
+    · simp only [hxa, if_true, decide_eq_true_eq] at h
+      have : ¬ a = b := h
+      simp [hxa, this]
+    · by_cases hxb : x = b
+      · rw [if_neg hxa, if_pos hxb] at h
+        exact absurd h (by simp)
+      · simp only [hxa, hxb, if_false] at h ⊢
+        exact before_asymm xs a b h
 
-theorem before_total (order : List Nat) (a b : Nat) (ha : a ∈ order) (hab : a ≠ b) (h : before order a b = false) :
-    before order b a = true := by
-  unfold before at *
-  simp only [decide_eq_true_eq, decide_eq_false_iff_not] at *
-  have h1 : order.idxOf a < order.length := List.idxOf_lt_length_iff.mpr ha
-  rcases Nat.lt_or_ge (order.idxOf b) (order.idxOf a) with c | c
-  · exact c
-  · have he : order.idxOf a = order.idxOf b := by omega
-    have hb : order.idxOf b < order.length := by omega
-    have hb' : b ∈ order := List.idxOf_lt_length_iff.mp hb
-    have g1 := List.getElem_idxOf h1
-    have g2 := List.getElem_idxOf hb
-    exact absurd (by rw [← g1, ← g2]; simp [he]) hab
+theorem before_total : ∀ (order : List Nat) (a b : Nat), a ∈ order → a ≠ b → before order a b = false → before order b a = true
+  | [], _, _, ha, _, _ => by simp at ha
+  | x :: xs, a, b, ha, hab, h => by
+    unfold before at h ⊢
+    by_cases hxa : x = a
+    · simp [hxa, hab] at h
+    · by_cases hxb : x = b
+      · have : ¬ b = a := fun c => hab c.symm
+        simp [hxb, this]
+      · simp only [hxa, hxb, if_false] at h ⊢
+        rcases List.mem_cons.mp ha with c | c
+        · exact absurd c.symm hxa
+        · exact before_total xs a b c hab h
+
+/-- in `pre ++ a :: post`, `a` comes before every `b ≠ a` that is not in `pre` -/
+theorem before_of_split : ∀ (pre : List Nat) (a : Nat) (post : List Nat) (b : Nat), b ∉ pre → a ≠ b →
+    before (pre ++ a :: post) a b = true
+  | [], a, post, b, _, hab => by simp [before, hab]
+  | x :: pre, a, post, b, hb, hab => by
+    have hxb : x ≠ b := fun c => hb (by simp [c])
+    have hb' : b ∉ pre := fun c => hb (by simp [c])
+    simp only [List.cons_append, before]
+    by_cases hxa : x = a
+    · simp [hxa, hab]
+    · simp only [hxa, hxb, if_false]
+      exact before_of_split pre a post b hb' hab
 
 /-- the two ports recorded for a tree edge are the two ends of one link that is in the adjacency in both directions -/
 theorem ports_are_link (adj : List Link) (order : List Nat) (v w pv pw : Nat) (hvw : v ≠ w) (hv : v ∈ order) (hw : w ∈ order)
